@@ -152,3 +152,11 @@ for _n in ("rmse", "residuals", "smape"):
         steps=["%s == %s" % (_SUMOF[_n], _SW(_SUMOF[_n]).replace("len(y_hat)", "len(y)"))],
         goal=["a == b"],
     )
+
+# "every error metric is >= 0": the sum of squares is non-negative (induction on the upper limit), hence residuals and rmse are
+LEMMAS["residuals_nonneg"] = dict(
+    context="kneeliverse.metrics.residuals", owner="C16", mode="R", vars={"y": V, "y_hat": V, "a": "Real", "b": "Real"},
+    hyps=REQ + ["a == %s" % FORMULA["residuals"], "b == %s" % FORMULA["rmse"]],
+    steps=[{"induct": ("i", "0", "len(y) + 1", "Sum(0, @, lambda k: sq(y[k] - y_hat[k])) >= 0")}],
+    goal=["a >= 0", "b >= 0"],
+)
